@@ -165,6 +165,18 @@ def run_c12(rep):
     fam_graph.graph_family(rep, n, ops, "C12", known_classes=known_classes("C12"))
 
 
+def run_c19(rep):
+    import fam_browser
+    n, ops = sizes(rep, (240, 16), (3000, 60))
+    fam_browser.browser_family(rep, n, ops, known_classes=known_classes("C19"))
+    # the browser engine against the browser variant of the model
+    n2, ops2 = sizes(rep, (240, 14), (3000, 40))
+    families.play_family(rep, n2, ops2, features=dict(hooks=0, join=0, params=0.4, loops=0.5),
+                         weights=dict(choose=60, undo=12, redo=8, save=5, load=4, fresh=3, goto=3, read=3, bad=2, loadbad=0),
+                         oracle_names=["oracle_c04"], known_classes=known_classes("C19"), variant="browser", label="c19-model")
+    fam_browser.bundle_check(rep, sizes(rep, 6, 20), rep.seed)
+
+
 # ------------------------------------------------------------------------------------------------ registry
 
 PROPS = {
@@ -350,6 +362,22 @@ PROPS = {
                    "are not validated by the compiler — recorded finding C12-F1 — so the navigation-safety clause is decided "
                    "by the oracle, which accepts exactly that class",
     ),
+    "C19": dict(
+        theorems=[T + "renderToks_common", T + "renderTok_common", T + "renderBranches_common", T + "renderChoiceTexts_common",
+                  T + "renderToks_plain_eq", T + "loopItems_common"],
+        run=run_c19,
+        rule="stories in the common feature subset (no hooks, no @join; parameters, loops, conditionals, one-time and block "
+             "choices, inputs, faults) played on the real main engine and the real engine_browser.BardEngine (imported from "
+             "the template file) with the same choose / undo / redo / save / load / fresh-load history, every response and "
+             "state compared (save data modulo the hooks key); the browser engine also against the browser variant of the "
+             "Lean model; bundles (half through an @include, re-bundled after edits) compared with compile_file",
+        level_text="proof: renderToks_common — on the common subset whatever the main engine's render yields successfully the "
+                   "browser copy's render yields too (same text, jump, directives, same state), by mutual induction, for every "
+                   "Sem; the remaining difference (a failing loop: inline marker vs ValueError) is recorded finding C19-F1; "
+                   "navigation, undo/redo and save/load of the browser copy are tied to the model's browser variant by "
+                   "correspondence and to the main engine by the differential oracle (partial: the Pyodide/JS half of a "
+                   "bundle is not modelled)",
+    ),
 }
 
 
@@ -398,6 +426,12 @@ def witness_fails(wj):
         c["cycles"] = False
         fs = getattr(oracles, wj["oracle"])(c)
         return any(f["cls"] == wj.get("cls") for f in fs)
+    if fam == "browser":
+        import fam_browser
+        c = corr_play.run_fixed(wj["source"], wj["ops"])
+        if "compile_error" in c:
+            return None
+        return any(f["cls"] == wj.get("cls") for f in fam_browser.compare_engines(c))
     if fam == "wf":
         import fam_graph
         try:
